@@ -117,6 +117,34 @@ def build_catalog(rng):
     py("blockfilter", '<%%block filter="%s%s%s">x</%%block>' % (C, F, bad), "parse")
     py("pagefilter", '<%%page expression_filter="%s%s%s"/>' % (C, F, bad), "parse")
 
+    # ---- the same Python-level faults with every style of line break / blank line inside the construct
+    # (lc.BRK: empty lines, lines of blanks, lines of tabs, trailing blanks after the opening delimiter, a mix)
+    K = lc.BRK
+    brk = [
+        ("expr", "${%s%s (1 +%s %s%s) }" % (C, K, K, F, bad), "code"),
+        ("expr-first-line", "${%s%s %s%s }" % (C, K, F, bad), "code"),
+        ("filter", "${ v |%s h,%s %s%s }" % (C, K, F, bad), "filter"),
+        ("block", "<%" + C + K + "   a = 1" + K + "   z = " + F + bad + "\n%>", "code"),
+        ("block-first-stmt", "<%" + C + K + "   z = " + F + bad + K + "%>", "code"),
+        ("modblock", "<%!" + C + K + "   import os" + K + "   z = " + F + bad + "\n%>", "code"),
+        ("defsig", '<%%def name="%sf@(a,%s   b=%s %s)">d</%%def>' % (C, K, F, bad), "parse"),
+        ("pageargs", '<%%page args="%sa,%s b=%s %s"/>' % (C, K, F, bad), "parse"),
+        ("callexpr", '<%%call expr="%sstr(1,%s %s%s)">c</%%call>' % (C, K, F, bad), "code"),
+        ("attrexpr", '<%%include file="${%s(1 +%s %s%s)}"/>' % (C, K, F, bad), "code"),
+        ("attrexpr-lead", '<%%include file="${%s%s %s%s}"/>' % (C, K, F, bad), "code"),
+        ("includeargs", '<%%include file="x" args="%sa=1,%s %s%s"/>' % (C, K, F, bad), "code"),
+    ]
+    for eid, text, site in brk:
+        for style, t in lc.break_variants(text):
+            if style != "plain":
+                E.append(_entry("py.%s.brk-%s" % (eid, style), t, "fault-brk", "py", site, 0, False))
+    for style, t in lc.break_variants("<%" + K + "   a = 1" + K + "%>"):
+        if style in ("trailing-blanks", "blank-line-of-tabs", "mixed"):
+            E.append(_entry("block.brk-" + style, t, "good-brk"))
+    for style, t in lc.break_variants("${ (1 +" + K + " 2) }" + K):
+        if style in ("blank-line-of-blanks", "mixed"):
+            E.append(_entry("exprml.brk-" + style, t, "good-brk"))
+
     # ---- structural faults: N marks the construct the report must point at
     st("unterminated-expr", "${ v ", swallow=True)
     st("unterminated-expr-ml", "${ (v +\n 1", swallow=True)
@@ -454,6 +482,15 @@ def check(run):
     n_design = take(resd2, "design")
     # ------------------------------------------------------------------ 2b. TLC: how the faulty template gets compiled
     few = [i + 1 for i, e in enumerate(E) if e["id"] in ("txtml", "cont", "block", "ctlcont")]
+    # every style of line break / blank line inside the Python-bearing constructs (and inside what precedes them)
+    brkf, brkg = idx(E, "fault-brk"), idx(E, "good-brk")
+    resk = run.tlc("MC_Lines", cfg(few + brkg, brkf, tails, 1, nlk, inv), name="mc-break-styles", workers=workers,
+                   extra_files=files, env=env)
+    if resk.violated:
+        run.spec_violation(resk)
+    n_brk = take(resk, "main")
+    if n_brk < len(brkf) * 4:
+        raise MachineryError("break-style instance exported only %d cases" % n_brk)
     allf = faulty + eof_only
     resr = run.tlc("MC_Lines", cfg(few, allf, [], 1, ["lf"], inv + ["RichShowsFault"], routes=ROUTES), name="mc-routes",
                    workers=workers, extra_files=files, env=env)
@@ -472,7 +509,7 @@ def check(run):
                    name="mc-routes-witness", workers=2, extra_files=files, env=env, expect_ok=False)
     if resw.violated != ["RichShowsFault"]:
         raise MachineryError("witness: RichOverrides = FALSE must violate RichShowsFault on a lazy route (%s)" % resw.violated)
-    run.extra["cases"] = {"main": n_main, "eof": n_eof, "design": n_design, "routes": len(route_cases)}
+    run.extra["cases"] = {"main": n_main, "eof": n_eof, "design": n_design, "routes": len(route_cases), "break-styles": n_brk}
     run.extra["catalog"] = {"good": len(good), "faults": len(faulty) + len(eof_only), "design_faults": len(design), "cosmetics": cos}
     if n_main < 1000:
         raise MachineryError("TLC exported only %d cases" % n_main)
@@ -563,6 +600,17 @@ def check(run):
         bad["cols"] = [x + 1 for x in case["cols"]] if len(case["cols"]) == 1 else [max(case["cols"]) + 1]
         r3 = compare(bad, E, text, o) is not None
         run.negative_control(r1 and r2 and r3, "comparer accepted a corrupted expectation / shifted template (%s)" % case["seq"])
+        rejected += 1
+    # the same controls on a synthetic observation (independent of how the tree under test behaves)
+    for case in pick[:10]:
+        text = lc.compose(E, case["seq"], "\n" if case["nl"] == "lf" else "\r\n")
+        syn = {"res": "exc", "type": "SyntaxException", "lineno": case["line"], "pos": case["cols"][0], "filename_ok": True,
+               "source_ok": True, "msg_ok": True}
+        ok = compare(case, E, text, syn) is None
+        ok = ok and compare(case, E, text, dict(syn, lineno=case["line"] + 1)) is not None
+        ok = ok and compare(case, E, text, dict(syn, pos=max(case["cols"]) + 1)) is not None
+        ok = ok and compare(case, E, text, dict(syn, source_ok=False)) is not None
+        run.negative_control(ok, "comparer mis-judged a synthetic observation (%s)" % case["seq"])
         rejected += 1
     if not rejected:
         raise MachineryError("no negative control could be run")
